@@ -71,7 +71,12 @@ impl<T: RefCnt> HybridProtection<T> {
         // We already synchronized the start of the sequence by SeqCst in the new_helping vs swap on
         // the pointer. We just need to make sure to bring the pointee in (this can be newer than
         // what we got in the Debt)
-        let candidate = storage.load(Acquire);
+        //
+        // SeqCst, not just Acquire: the read must not return a value that some writer removed (in
+        // the SeqCst order) before we published the generation above. Such writer might have
+        // already examined our control (seeing IDLE) and slot, so it won't pay the debt we are
+        // about to create, and the value might be gone by now.
+        let candidate = storage.load(SeqCst);
 
         // Try to replace the debt with our candidate. If it works, we get the debt slot to use. If
         // not, we get a replacement value, already protected and a debt to take care of.
